@@ -156,9 +156,7 @@ impl<T> BTreeSet<T> {
     { unimplemented!() }
 }
 
-/// `Jmp` of the intermediate representation: opaque (the query never looks into the jump term).
-#[verifier::external_body]
-pub struct Jmp { _p: () }
+// `Jmp` of the intermediate representation is EXTRACTED from /repo (jmp.rs) by the unit; the query never looks into it.
 
 /// Contract of `verif_common_edge_tids`, as a predicate: `r` is the set of the tids of the edges in both `a` and `b`.
 pub open spec fn cg_common_tids<'a, N>(g: DiGraph<N, &'a Term<Jmp>>, a: Set<EdgeIndex>, b: Set<EdgeIndex>, r: Set<Tid>) -> bool {
